@@ -266,7 +266,42 @@ def isr_bits(ctx: Ctx, py: PyProgram, rs: RustProgram) -> None:
             which = src[-1].split(".")[-1]
             if isr.get(which) != val:
                 ctx.violation("C13.3/isr-bit", key_of(EMU, "_tick_timers", f"_set_isr_bits({val:#x})"), f"source {which} sets ISR {val:#x}, ISRFlag.{which}={isr.get(which)}", f"{EMU}:{c.lineno}")
-    ctx.instance("C13.3/isr-bit", "firing sets ISR bit 0 (MTI) / bit 1 (STI) in both cores", n, 5)
+    # the latch itself: _set_isr_bits(mask) leaves ISR = old | mask whatever the interrupt mask register holds (a status bit latches
+    # when the timer fires; IMR only gates delivery) - the method is interpreted for timer masks x IMR values x old ISR values
+    from ..pyfacts import ClassHost, NotConst
+    ecls = py.need_cls(mod, "PCE500Emulator")
+    ctx.need("_set_isr_bits" in ecls.methods, "PCE500Emulator._set_isr_bits vanished")
+    imem = PyEval(py, mod).eval(ast.parse("INTERNAL_MEMORY_START", mode="eval").body)
+    bad = None
+    for mask in (isr["MTI"], isr["STI"], isr["MTI"] | isr["STI"]):
+        for imr in (0x00, 0x01, 0x02, 0x80, 0x83):
+            for old in (0x00, 0x04, 0x03):
+                n += 1
+                cells = {imem + 0xFC: old, imem + 0xFB: imr}
+                writes: list = []
+
+                class _Mem:
+                    _sa_host = True
+
+                    def read_byte(self, a: int, *_a: Any, **_k: Any) -> int:
+                        return cells.get(a, 0)
+
+                    def write_byte(self, a: int, v: int, *_a: Any, **_k: Any) -> None:
+                        writes.append((a, v))
+                        cells[a] = v
+                me = ClassHost(py, mod, ecls, memory=_Mem(), _irq_pending=False, _key_irq_latched=False, trace=None, perfetto_enabled=False)
+                try:
+                    me._sa_call(ecls, ecls.methods["_set_isr_bits"], (mask,), {})
+                except NotConst as e:
+                    raise AnalysisError(f"_set_isr_bits left the evaluable fragment: {e}")
+                if cells.get(imem + 0xFC) != (old | mask) and bad is None:
+                    bad = (mask, imr, old, cells.get(imem + 0xFC))
+    if bad:
+        mask, imr, old, got = bad
+        ctx.violation("C13.3/isr-latch", key_of(EMU, "PCE500Emulator._set_isr_bits", "status bit not latched"),
+                      f"_set_isr_bits({mask:#04x}) with ISR={old:#04x}, IMR={imr:#04x} leaves ISR={got:#04x}, not {old | mask:#04x}: the scheduler has already moved the target past the boundary, so the fire is consumed "
+                      "without its status bit ever being set (the Rust tick latches regardless of IMR)", f"{EMU}:{ecls.methods['_set_isr_bits'].lineno}")
+    ctx.instance("C13.3/isr-bit", "firing sets ISR bit 0 (MTI) / bit 1 (STI) in both cores; the Python latch ORs the mask for every IMR value", n, 50)
 
 
 def tick_sites(ctx: Ctx, py: PyProgram, rs: RustProgram) -> None:
